@@ -334,7 +334,7 @@ func (r *Run) Violate(class string, c Case, format string, a ...interface{}) {
 	if i := strings.IndexByte(first, '\n'); i >= 0 && !r.Verbose {
 		first = first[:i]
 	}
-	fmt.Printf("  class=%s gen=%s seed=%d index=%d: %s\n", class, c.Gen, c.Seed, c.Index, first)
+	fmt.Printf("  class=%s gen=%s seed=%d index=%d: %s\n", class, c.Gen, c.Seed, c.Index, Printable(first))
 }
 
 // Violations returns the number of (unknown) violations so far.
@@ -538,4 +538,20 @@ func Trunc(s string, n int) string {
 		return s[:n] + "…"
 	}
 	return s
+}
+
+// Printable escapes control bytes (other than newline and tab) and invalid UTF-8 for terminal output.
+func Printable(s string) string {
+	var b strings.Builder
+	for _, r := range s {
+		switch {
+		case r == '\n' || r == '\t':
+			b.WriteRune(r)
+		case r < 0x20 || r == 0x7f || r == 0xFFFD:
+			fmt.Fprintf(&b, "\\x%02x", r&0xff)
+		default:
+			b.WriteRune(r)
+		}
+	}
+	return b.String()
 }
